@@ -266,6 +266,14 @@ def shapes(rnd, tier='quick'):
     for en in ('a.b', '__x', 'foo-bar', 'a__b_', 'x y.z', 'h\u00e9', 'X', 'aX2Eb', '_', 'e.'):
         out.append(('namerel-%s' % ''.join(ch if ch.isalnum() else '_' for ch in en), name_relations(en)))
     out.append(('all-constructs', all_constructs()))
+    # names of NON-function imports are passed to the resolver as C strings: conversion specifications, quotes, backslashes, trigraph-like text
+    pm = Module()
+    for i, nm in enumerate(['100%sure%n%n%s%s%s%s', '%d%d%d%d%d%d%d%d%d%d%n', 'q"uote', 'back\\slash', '??/', '%', 'a%5$s']):
+        pm.imports.append(('env%' + 's' * (i % 2), nm, 'global', (I32, False)))
+    pm.imports.append(('%s%s%s%n', 'mem%n', 'memory', (1, None, False)))
+    pm.imports.append(('t%s', '%n%n%n%n%s', 'table', (2, None)))
+    tiny_func(pm, 0, export='f')
+    out.append(('names-format-nonfunc-import', pm))
     out.append(('locals-49000-onegroup', many_locals(1, 49000, mixed=False)))
     out.append(('locals-980groups', many_locals(980, 50)))
     out.append(('locals-5000groups-of-1', many_locals(5000, 1)))
